@@ -69,6 +69,11 @@ let rec sub n0 m0 =
             | O -> n0
             | S l -> sub k l)
 
+(** val eqb : bool -> bool -> bool **)
+
+let eqb b1 b2 =
+  if b1 then b2 else if b2 then false else true
+
 module Nat =
  struct
   (** val eqb : nat -> nat -> bool **)
@@ -105,6 +110,12 @@ module Nat =
                | O -> n0
                | S m' -> S (max n' m'))
  end
+
+(** val hd : 'a1 -> 'a1 list -> 'a1 **)
+
+let hd default = function
+| [] -> default
+| x :: _ -> x
 
 (** val nth : nat -> 'a1 list -> 'a1 -> 'a1 **)
 
@@ -163,6 +174,12 @@ let rec fold_right f a0 = function
 let rec existsb f = function
 | [] -> false
 | a :: l0 -> (||) (f a) (existsb f l0)
+
+(** val forallb : ('a1 -> bool) -> 'a1 list -> bool **)
+
+let rec forallb f = function
+| [] -> true
+| a :: l0 -> (&&) (f a) (forallb f l0)
 
 (** val filter : ('a1 -> bool) -> 'a1 list -> 'a1 list **)
 
@@ -6648,3 +6665,608 @@ let unmarshal_json = function
             | _ -> None)
          | _ -> None)
       | _ -> None))
+
+(** val row_ent : table -> nat -> ent **)
+
+let row_ent t r =
+  nth r t.t_ents zero_ent
+
+(** val loc : w -> ent -> (nat * nat) option **)
+
+let loc s e =
+  match nth_error s.w_index (fst e) with
+  | Some p0 ->
+    let (o, r) = p0 in (match o with
+                        | Some tid -> Some (tid, r)
+                        | None -> None)
+  | None -> None
+
+(** val live : w -> ent -> bool **)
+
+let live s e =
+  match loc s e with
+  | Some p0 ->
+    let (tid, r) = p0 in
+    (match nth_error s.w_tables tid with
+     | Some t -> (&&) (Nat.ltb r t.t_len) (ent_eqb (row_ent t r) e)
+     | None -> false)
+  | None -> false
+
+(** val r2_nodupb : nat list -> bool **)
+
+let rec r2_nodupb = function
+| [] -> true
+| x :: t -> (&&) (negb (memb x t)) (r2_nodupb t)
+
+(** val r2_alli : (nat -> 'a1 -> bool) -> nat -> 'a1 list -> bool **)
+
+let rec r2_alli f i0 = function
+| [] -> true
+| x :: t -> (&&) (f i0 x) (r2_alli f (S i0) t)
+
+(** val r2_exi : (nat -> 'a1 -> bool) -> nat -> 'a1 list -> bool **)
+
+let rec r2_exi f i0 = function
+| [] -> false
+| x :: t -> (||) (f i0 x) (r2_exi f (S i0) t)
+
+(** val r2_ents_eqb : ent list -> ent list -> bool **)
+
+let rec r2_ents_eqb l1 l2 =
+  match l1 with
+  | [] -> (match l2 with
+           | [] -> true
+           | _ :: _ -> false)
+  | a :: t1 ->
+    (match l2 with
+     | [] -> false
+     | b :: t2 -> (&&) (ent_eqb a b) (r2_ents_eqb t1 t2))
+
+(** val r2_is_some_true : bool option -> bool **)
+
+let r2_is_some_true = function
+| Some b -> b
+| None -> false
+
+(** val r2_c_nodup : w -> bool **)
+
+let r2_c_nodup s =
+  forallb (fun a -> (&&) (r2_nodupb a.a_tables) (r2_nodupb a.a_free))
+    s.w_archs
+
+(** val r2_c_active : w -> bool **)
+
+let r2_c_active s =
+  forallb (fun a ->
+    forallb (fun tid ->
+      match nth_error s.w_tables tid with
+      | Some t -> negb t.t_free
+      | None -> true) a.a_tables) s.w_archs
+
+(** val r2_c_freed : w -> bool **)
+
+let r2_c_freed s =
+  forallb (fun a ->
+    forallb (fun tid ->
+      match nth_error s.w_tables tid with
+      | Some t -> (&&) t.t_free (Nat.eqb t.t_len O)
+      | None -> true) a.a_free) s.w_archs
+
+(** val r2_c_listed : w -> bool **)
+
+let r2_c_listed s =
+  r2_alli (fun tid t ->
+    match nth_error s.w_archs t.t_arch with
+    | Some a -> if t.t_free then memb tid a.a_free else memb tid a.a_tables
+    | None -> false) O s.w_tables
+
+(** val r2_c_norel : w -> bool **)
+
+let r2_c_norel s =
+  forallb (fun a ->
+    if Nat.eqb a.a_numrel O
+    then (&&) ((&&) (is_nil a.a_free) (is_nil a.a_tgttabs))
+           (forallb is_nil a.a_reltabs)
+    else true) s.w_archs
+
+(** val r2_shape_b : arch -> table -> bool **)
+
+let r2_shape_b a t =
+  (&&)
+    ((&&)
+      ((&&)
+        ((&&) (r2_nodupb (map fst t.t_rels))
+          (forallb (fun r ->
+            match index_of (fst r) a.a_comps with
+            | Some i ->
+              (&&) (r2_is_some_true (nth_error a.a_isrel i))
+                (match nth_error t.t_targets i with
+                 | Some y -> ent_eqb y (snd r)
+                 | None -> false)
+            | None -> false) t.t_rels))
+        (r2_alli (fun i c ->
+          match nth_error a.a_isrel i with
+          | Some b ->
+            if b
+            then (match nth_error t.t_targets i with
+                  | Some x ->
+                    existsb (fun r ->
+                      (&&) (Nat.eqb (fst r) c) (ent_eqb (snd r) x)) t.t_rels
+                  | None -> true)
+            else true
+          | None -> true) O a.a_comps))
+      (r2_alli (fun i b ->
+        if b
+        then true
+        else (match nth_error t.t_targets i with
+              | Some x -> ent_eqb x zero_ent
+              | None -> false)) O a.a_isrel))
+    (Nat.eqb (length t.t_rels) a.a_numrel)
+
+(** val r2_c_shape : w -> bool **)
+
+let r2_c_shape s =
+  forallb (fun t ->
+    match nth_error s.w_archs t.t_arch with
+    | Some a -> r2_shape_b a t
+    | None -> true) s.w_tables
+
+(** val r2_c_unique : w -> bool **)
+
+let r2_c_unique s =
+  r2_alli (fun tid1 t1 ->
+    r2_alli (fun tid2 t2 ->
+      if (&&)
+           ((&&) ((&&) (negb t1.t_free) (negb t2.t_free))
+             (Nat.eqb t1.t_arch t2.t_arch))
+           (r2_ents_eqb t1.t_targets t2.t_targets)
+      then Nat.eqb tid1 tid2
+      else true) O s.w_tables) O s.w_tables
+
+(** val r2_c_reltabs : w -> bool **)
+
+let r2_c_reltabs s =
+  forallb (fun a ->
+    r2_alli (fun i m0 ->
+      forallb (fun kl ->
+        (&&)
+          ((&&) (r2_nodupb (snd kl))
+            (r2_is_some_true (nth_error a.a_isrel i)))
+          (forallb (fun tid ->
+            match nth_error s.w_tables tid with
+            | Some t ->
+              (&&) (negb t.t_free)
+                (match nth_error t.t_targets i with
+                 | Some x -> Nat.eqb (fst x) (fst kl)
+                 | None -> false)
+            | None -> false) (snd kl))) m0) O a.a_reltabs) s.w_archs
+
+(** val r2_c_reltabs_complete : w -> bool **)
+
+let r2_c_reltabs_complete s =
+  r2_alli (fun tid t ->
+    if t.t_free
+    then true
+    else (match nth_error s.w_archs t.t_arch with
+          | Some a ->
+            r2_alli (fun i b ->
+              if b
+              then (match nth_error t.t_targets i with
+                    | Some x ->
+                      (match nth_error a.a_reltabs i with
+                       | Some m0 ->
+                         (match afind (fst x) m0 with
+                          | Some l -> memb tid l
+                          | None -> false)
+                       | None -> false)
+                    | None -> true)
+              else true) O a.a_isrel
+          | None -> true)) O s.w_tables
+
+(** val r2_has_target_b : arch -> table -> nat -> bool **)
+
+let r2_has_target_b a t k =
+  r2_exi (fun i b ->
+    (&&) b
+      (match nth_error t.t_targets i with
+       | Some x -> Nat.eqb (fst x) k
+       | None -> false)) O a.a_isrel
+
+(** val r2_c_tgttabs : w -> bool **)
+
+let r2_c_tgttabs s =
+  forallb (fun a ->
+    forallb (fun kl ->
+      (&&) (r2_nodupb (snd kl))
+        (forallb (fun tid ->
+          match nth_error s.w_tables tid with
+          | Some t -> (&&) (negb t.t_free) (r2_has_target_b a t (fst kl))
+          | None -> false) (snd kl))) a.a_tgttabs) s.w_archs
+
+(** val r2_c_tgttabs_complete : w -> bool **)
+
+let r2_c_tgttabs_complete s =
+  r2_alli (fun tid t ->
+    if t.t_free
+    then true
+    else (match nth_error s.w_archs t.t_arch with
+          | Some a ->
+            r2_alli (fun i b ->
+              if b
+              then (match nth_error t.t_targets i with
+                    | Some x ->
+                      (match afind (fst x) a.a_tgttabs with
+                       | Some l -> memb tid l
+                       | None -> false)
+                    | None -> true)
+              else true) O a.a_isrel
+          | None -> true)) O s.w_tables
+
+(** val r2_c_keys : w -> bool **)
+
+let r2_c_keys s =
+  forallb (fun a ->
+    forallb (fun m0 ->
+      forallb (fun kl ->
+        match afind (fst kl) a.a_tgttabs with
+        | Some _ -> true
+        | None -> false) m0) a.a_reltabs) s.w_archs
+
+(** val r2_c_relarchs : w -> bool **)
+
+let r2_c_relarchs s =
+  (&&)
+    ((&&) (r2_nodupb s.w_relarchs)
+      (forallb (fun aid ->
+        match nth_error s.w_archs aid with
+        | Some a -> Nat.ltb O a.a_numrel
+        | None -> false) s.w_relarchs))
+    (r2_alli (fun aid a ->
+      if Nat.ltb O a.a_numrel then memb aid s.w_relarchs else true) O
+      s.w_archs)
+
+(** val r2_c_istarget : w -> bool **)
+
+let r2_c_istarget s =
+  forallb (fun a ->
+    forallb (fun kl ->
+      (||) (Nat.eqb (fst kl) O) (nth (fst kl) s.w_istarget false)) a.a_tgttabs)
+    s.w_archs
+
+(** val r2_c_targets_ok : w -> bool **)
+
+let r2_c_targets_ok s =
+  forallb (fun t ->
+    if t.t_free
+    then true
+    else forallb (fun r -> (||) (ent_eqb (snd r) zero_ent) (live s (snd r)))
+           t.t_rels) s.w_tables
+
+(** val rel_inv_checks : w -> bool list **)
+
+let rel_inv_checks s =
+  (r2_c_nodup s) :: ((r2_c_active s) :: ((r2_c_freed s) :: ((r2_c_listed s) :: (
+    (r2_c_norel s) :: ((r2_c_shape s) :: ((r2_c_unique s) :: ((r2_c_reltabs s) :: (
+    (r2_c_reltabs_complete s) :: ((r2_c_tgttabs s) :: ((r2_c_tgttabs_complete
+                                                         s) :: ((r2_c_keys s) :: (
+    (r2_c_relarchs s) :: ((r2_c_istarget s) :: ((r2_c_targets_ok s) :: []))))))))))))))
+
+(** val r2_cache_member_b : w -> fobj -> rel list -> table -> bool **)
+
+let r2_cache_member_b s f rels t =
+  (&&) (negb t.t_free)
+    (match nth_error s.w_archs t.t_arch with
+     | Some a ->
+       (&&) (filter_matches f a.a_mask)
+         ((||) (is_nil t.t_rels) (r2_is_some_true (tbl_matches t rels)))
+     | None -> false)
+
+(** val r2_c_entry : w -> centry -> fobj -> bool **)
+
+let r2_c_entry s e f =
+  (&&)
+    ((&&)
+      ((&&) (r2_nodupb e.ce_tables)
+        (forallb (fun r -> mk_get f.f_mask (fst r)) e.ce_rels))
+      (forallb (fun tid ->
+        match nth_error s.w_tables tid with
+        | Some t -> r2_cache_member_b s f e.ce_rels t
+        | None -> false) e.ce_tables))
+    (r2_alli (fun tid t ->
+      if r2_cache_member_b s f e.ce_rels t then memb tid e.ce_tables else true)
+      O s.w_tables)
+
+(** val cache_inv_b : w -> bool **)
+
+let cache_inv_b s =
+  (&&) (r2_nodupb s.w_centries)
+    (forallb (fun addr ->
+      match nth_error s.w_cheap addr with
+      | Some e ->
+        (match nth_error s.w_filters e.ce_filter with
+         | Some f -> r2_c_entry s e f
+         | None -> true)
+      | None -> true) s.w_centries)
+
+(** val r2_ckind_eqb : ckind -> ckind -> bool **)
+
+let r2_ckind_eqb a b =
+  (&&) ((&&) (eqb a.ck_rel b.ck_rel) (eqb a.ck_zs b.ck_zs))
+    (eqb a.ck_triv b.ck_triv)
+
+(** val r2_list_eqb : ('a1 -> 'a1 -> bool) -> 'a1 list -> 'a1 list -> bool **)
+
+let rec r2_list_eqb eqb0 l1 l2 =
+  match l1 with
+  | [] -> (match l2 with
+           | [] -> true
+           | _ :: _ -> false)
+  | a :: t1 ->
+    (match l2 with
+     | [] -> false
+     | b :: t2 -> (&&) (eqb0 a b) (r2_list_eqb eqb0 t1 t2))
+
+(** val r2_tbl_ok_b : table -> bool **)
+
+let r2_tbl_ok_b t =
+  (&&)
+    ((&&)
+      ((&&)
+        ((&&)
+          ((&&) (Nat.leb t.t_len t.t_cap) (Nat.eqb (length t.t_ents) t.t_cap))
+          (Nat.eqb (length t.t_cols) (length t.t_ids)))
+        (Nat.eqb (length t.t_kinds) (length t.t_ids)))
+      (forallb (fun c ->
+        (&&) (Nat.eqb (length c) t.t_cap)
+          (forallb (fun v -> Z.eqb v Z0) (skipn t.t_len c))) t.t_cols))
+    (r2_alli (fun i k ->
+      if k.ck_zs
+      then (match nth_error t.t_cols i with
+            | Some c -> forallb (fun v -> Z.eqb v Z0) c
+            | None -> true)
+      else true) O t.t_kinds)
+
+(** val r2_w_tables : w -> bool **)
+
+let r2_w_tables s =
+  forallb r2_tbl_ok_b s.w_tables
+
+(** val r2_w_layout : w -> bool **)
+
+let r2_w_layout s =
+  forallb (fun t ->
+    match nth_error s.w_archs t.t_arch with
+    | Some a ->
+      (&&)
+        ((&&) (r2_list_eqb Nat.eqb t.t_ids a.a_comps)
+          (r2_list_eqb r2_ckind_eqb t.t_kinds (map (kind_of s) t.t_ids)))
+        (Nat.eqb (length t.t_targets) (length t.t_ids))
+    | None -> false) s.w_tables
+
+(** val r2_w_arch_comps : w -> bool **)
+
+let r2_w_arch_comps s =
+  forallb (fun a ->
+    (&&)
+      ((&&)
+        ((&&)
+          ((&&)
+            (r2_list_eqb Nat.eqb a.a_comps
+              (mk_to_list a.a_mask (length s.w_reg)))
+            (N.ltb a.a_mask (N.shiftl (Npos XH) (N.of_nat (length s.w_reg)))))
+          (r2_list_eqb eqb a.a_isrel
+            (map (fun c -> (kind_of s c).ck_rel) a.a_comps)))
+        (Nat.eqb a.a_numrel (length (filter (fun b -> b) a.a_isrel))))
+      (Nat.eqb (length a.a_reltabs) (length a.a_comps))) s.w_archs
+
+(** val r2_w_arch_unique : w -> bool **)
+
+let r2_w_arch_unique s =
+  r2_alli (fun i a ->
+    r2_alli (fun j b ->
+      if N.eqb a.a_mask b.a_mask then Nat.eqb i j else true) O s.w_archs) O
+    s.w_archs
+
+(** val r2_tab_of_arch : w -> nat -> nat -> bool **)
+
+let r2_tab_of_arch s aid tid =
+  match nth_error s.w_tables tid with
+  | Some t -> Nat.eqb t.t_arch aid
+  | None -> false
+
+(** val r2_w_arch_tables : w -> bool **)
+
+let r2_w_arch_tables s =
+  r2_alli (fun aid a ->
+    (&&)
+      ((&&)
+        ((&&) (forallb (r2_tab_of_arch s aid) a.a_tables)
+          (forallb (r2_tab_of_arch s aid) a.a_free))
+        (forallb (fun m0 ->
+          forallb (fun kl -> forallb (r2_tab_of_arch s aid) (snd kl)) m0)
+          a.a_reltabs))
+      (forallb (fun kl -> forallb (r2_tab_of_arch s aid) (snd kl))
+        a.a_tgttabs)) O s.w_archs
+
+(** val r2_w_norel_table : w -> bool **)
+
+let r2_w_norel_table s =
+  forallb (fun a ->
+    if Nat.eqb a.a_numrel O then Nat.leb (length a.a_tables) (S O) else true)
+    s.w_archs
+
+(** val r2_w_arch0 : w -> bool **)
+
+let r2_w_arch0 s =
+  match nth_error s.w_archs O with
+  | Some a0 ->
+    (match nth_error s.w_tables O with
+     | Some t0 -> (&&) (N.eqb a0.a_mask N0) (Nat.eqb t0.t_arch O)
+     | None -> false)
+  | None -> false
+
+(** val r2_w_index_lists : w -> bool **)
+
+let r2_w_index_lists s =
+  (&&)
+    ((&&)
+      ((&&)
+        ((&&) (Nat.eqb (length s.w_compindex) (length s.w_reg))
+          (Nat.eqb (length s.w_archcount) (length s.w_reg)))
+        (Nat.leb (length s.w_reg) s.w_cfg.cf_bits))
+      (Nat.leb (S O) s.w_cfg.cf_cap)) (Nat.leb (S O) s.w_cfg.cf_caprel)
+
+(** val r2_w_index_len : w -> bool **)
+
+let r2_w_index_len s =
+  (&&) (Nat.eqb (length s.w_index) (length s.w_pool.pe))
+    (Nat.eqb (length s.w_istarget) (length s.w_index))
+
+(** val r2_loc_eqb : (nat * nat) option -> nat -> nat -> bool **)
+
+let r2_loc_eqb o tid r =
+  match o with
+  | Some p0 -> let (a, b) = p0 in (&&) (Nat.eqb a tid) (Nat.eqb b r)
+  | None -> false
+
+(** val r2_w_rows : w -> bool **)
+
+let r2_w_rows s =
+  r2_alli (fun tid t ->
+    forallb (fun r ->
+      (&&) (r2_loc_eqb (loc s (row_ent t r)) tid r)
+        (match nth_error s.w_pool.pe (fst (row_ent t r)) with
+         | Some e -> ent_eqb e (row_ent t r)
+         | None -> false)) (seq O t.t_len)) O s.w_tables
+
+(** val r2_w_index : w -> bool **)
+
+let r2_w_index s =
+  r2_alli (fun id ix ->
+    let (o, r) = ix in
+    (match o with
+     | Some tid ->
+       (match nth_error s.w_tables tid with
+        | Some t -> (&&) (Nat.ltb r t.t_len) (Nat.eqb (fst (row_ent t r)) id)
+        | None -> false)
+     | None -> true)) O s.w_index
+
+(** val r2_free_list : ent list -> nat -> nat -> nat list **)
+
+let rec r2_free_list l nx = function
+| O -> []
+| S n' -> nx :: (r2_free_list l (fst (nth nx l zero_ent)) n')
+
+(** val r2_w_pool : w -> bool **)
+
+let r2_w_pool s =
+  let p0 = s.w_pool in
+  let fl = r2_free_list p0.pe p0.pnext p0.pavail in
+  (&&)
+    ((&&)
+      ((&&) ((&&) (Nat.leb (S (S O)) (length p0.pe)) (r2_nodupb fl))
+        (forallb (fun i ->
+          (&&) (Nat.leb (S (S O)) i) (Nat.ltb i (length p0.pe))) fl))
+      (forallb (fun i ->
+        match nth_error s.w_index i with
+        | Some p1 ->
+          let (o, _) = p1 in (match o with
+                              | Some _ -> false
+                              | None -> true)
+        | None -> false) fl))
+    (forallb (fun i ->
+      if (&&) (Nat.leb (S (S O)) i) (negb (memb i fl))
+      then (match nth_error s.w_index i with
+            | Some p1 ->
+              let (o, _) = p1 in (match o with
+                                  | Some _ -> true
+                                  | None -> false)
+            | None -> false)
+      else true) (seq O (length p0.pe)))
+
+(** val r2_w_reserved : w -> bool **)
+
+let r2_w_reserved s =
+  (&&)
+    ((&&)
+      ((&&)
+        (match nth_error s.w_index O with
+         | Some p0 ->
+           let (o, _) = p0 in (match o with
+                               | Some _ -> false
+                               | None -> true)
+         | None -> false)
+        (match nth_error s.w_index (S O) with
+         | Some p0 ->
+           let (o, _) = p0 in (match o with
+                               | Some _ -> false
+                               | None -> true)
+         | None -> false))
+      (match nth_error s.w_pool.pe O with
+       | Some e -> ent_eqb e (O, max_u32)
+       | None -> false))
+    (match nth_error s.w_pool.pe (S O) with
+     | Some e -> ent_eqb e ((S O), max_u32)
+     | None -> false)
+
+(** val r2_w_small : w -> bool **)
+
+let r2_w_small s =
+  N.ltb (N.of_nat (length s.w_pool.pe)) (Npos (XO (XO (XO (XO (XO (XO (XO (XO
+    (XO (XO (XO (XO (XO (XO (XO (XO (XO (XO (XO (XO (XO (XO (XO (XO (XO (XO
+    (XO (XO (XO (XO (XO XH))))))))))))))))))))))))))))))))
+
+(** val r2_w_cache : w -> bool **)
+
+let r2_w_cache s =
+  forallb (fun addr ->
+    match nth_error s.w_cheap addr with
+    | Some e -> Nat.ltb e.ce_filter (length s.w_filters)
+    | None -> false) s.w_centries
+
+(** val wf_checks : w -> bool list **)
+
+let wf_checks s =
+  (r2_w_tables s) :: ((r2_w_layout s) :: ((r2_w_arch_comps s) :: ((r2_w_arch_unique
+                                                                    s) :: (
+    (r2_w_arch_tables s) :: ((r2_w_norel_table s) :: ((r2_w_arch0 s) :: (
+    (r2_w_index_lists s) :: ((r2_w_index_len s) :: ((r2_w_rows s) :: (
+    (r2_w_index s) :: ((r2_w_pool s) :: ((r2_w_reserved s) :: ((r2_w_small s) :: (
+    (r2_w_cache s) :: []))))))))))))))
+
+(** val inv_failing : nat -> bool list -> z list **)
+
+let rec inv_failing i = function
+| [] -> []
+| b :: t ->
+  if b then inv_failing (S i) t else (Z.of_nat i) :: (inv_failing (S i) t)
+
+(** val inv_lines : bool -> w -> z list list -> z list list **)
+
+let rec inv_lines debug s = function
+| [] -> []
+| l :: rest ->
+  let (s', out) = step debug false s l in
+  ((hd (Zpos (XI (XO (XO XH)))) out) :: (inv_failing O
+                                          (app (wf_checks s')
+                                            (app (rel_inv_checks s')
+                                              ((cache_inv_b s') :: []))))) :: 
+  (inv_lines debug s' rest)
+
+(** val inv_script : z list list -> z list list **)
+
+let inv_script = function
+| [] -> ((Zneg (XO XH)) :: []) :: []
+| cfg :: l ->
+  (match l with
+   | [] -> ((Zneg (XO XH)) :: []) :: []
+   | l0 :: ops ->
+     (match l0 with
+      | [] -> ((Zneg (XO XH)) :: []) :: []
+      | _ :: l1 ->
+        (match l1 with
+         | [] ->
+           (match decode_cfg cfg with
+            | Some c -> inv_lines c.sc_debug (init_world c) ops
+            | None -> ((Zneg (XO XH)) :: []) :: [])
+         | _ :: _ -> ((Zneg (XO XH)) :: []) :: [])))
